@@ -305,6 +305,8 @@ def run(ctx):
     C.extra['file_membership_writers'] = writers
     C.ok('C10-WHO-membership', 'enumerated', '%d writer functions, %d sites' % (len(writers), sum(writers.values())))
     C.floor('C10-WHO-membership.sites', sum(writers.values()), 10)
+    import scope
+    scope.closed_world(C, P, 'C10-WHO-membership')
     return C.finish('Structural necessary conditions of file-membership consistency on MIR: one membership predicate in the four per-file views (cut-set and reachability on the CFG), no tree mutation during tree iteration '
                     '(may-mutate summary over the resolved call graph + loop bodies), guarded membership writes, indexed deletion, rollback of a failed merge. '
                     'The inheritance invariant under arbitrary API histories is not decided.')
